@@ -20,6 +20,7 @@ def run(ctx):
     E.r_request_flags(prog, rep)
     E.r_waitcount(prog, rep)              # a wait count that cannot reach zero is a stall, reported as a cycle
     E.r_outstanding_count(prog, rep)
+    E.r_queue_ops(prog, rep)           # a lost scan request leaves its rule scanning for ever: a stall, reported as a cycle
     E.r_dfs_pairing(prog, rep)
     E.r_cancel_on_exit(prog, rep)
 from rules.engine_variants import C07 as VARIANTS  # noqa: E402
